@@ -152,6 +152,77 @@ def run_external(ctx):
                         f"pings={pings} pongs={pongs} report={rep}", size=appcheck.size_of(sc))
 
 
+def run_slow_handlers(ctx):
+    """application handlers that take longer than the ping timeout (or straddle a ping tick): a pong is timed when it ARRIVES,
+    so a peer that answers every ping at once is still never reported. Real runs + the bound (the model's callbacks take no time)."""
+    scs = []
+    for iv, to in ((3 * TPS, TPS), (5 * TPS, 2 * TPS), (2 * TPS, TPS)):
+        # (the handler returns before the next ping goes out: a loop that is still busy when the NEXT pong arrives reads it
+        #  late through no fault of the peer — that is the application's doing and outside the property)
+        for delay in sorted({min(to + 50, iv - 20), iv - 20, to + 1}):
+            sc = ka_scenario(iv, to, [1, 1, 1, 1])
+            sc.update(plan={"on_pong": "zzzzzz"}, cb_delay=delay, kind="ka-slow-handler")
+            sc["tag"] += f":slow-on_pong:{delay}"
+            scs.append(sc)
+    real = appcheck.run_real_many(scs)
+    for sc, r in zip(scs, real):
+        items = [(int(t), rest) for t, _, rest in (it.partition(":") for it in (r["trace"].split(";") if r["trace"] else []))]
+        pings = [t for t, rest in items if rest.startswith("wrote:9:")]
+        rep = next((t for t, rest in items if "eTIMEOUT" in rest), None)
+        pongs = pongs_of(sc)
+        ctx.case(key=sc["tag"], nontrivial=bool(pings), cls="ka-slow-handler:" + sc["tag"].split(":slow-")[1].split(":")[0])
+        # every ping that went out was answered one tick later (arrival time): nothing may be reported
+        unanswered = [p for p in pings if not any(p < q <= p + sc["to"] for q in pongs)]
+        if not unanswered and rep is not None:
+            ctx.violate("no-false-positive", "responsive-peer-reported@slow-handler", sc, "never reported",
+                        f"pings={pings} pongs(arrival)={pongs[:6]} report={rep}; trace …{r['trace'][-240:]}", size=appcheck.size_of(sc))
+
+
+def run_external_reconnect(ctx):
+    """external dispatcher + reconnect: EVERY connection of the run that falls silent is given up within two timeouts of its
+    first unanswered ping — the second and the third as well as the first (the periodic check belongs to the run)."""
+    from props import c15
+    scs = []
+    for seq in (("Es", "Es"), ("Es", "Es", "Es"), ("Ee", "Es"), ("Es", "R", "Es"), ("Er", "Es", "Es")):
+        for iv, to in ((3 * TPS, 2 * TPS), (5 * TPS, 2 * TPS), (2 * TPS, TPS)):
+            for ext in (True, False):
+                sc = c15.scenario(seq, TPS, "close", ka=True)
+                sc.update(iv=iv, to=to, ext=ext, kind="ka-reconnect", horizon=(len(seq) * 4 + 6) * iv,
+                          tag=f"{'-'.join(seq)}|iv={iv}|to={to}|{'external' if ext else 'builtin'}")
+                scs.append(sc)
+    real = appcheck.run_real_many(scs)
+    for sc, r in zip(scs, real):
+        items = [(int(t), rest) for t, _, rest in (it.partition(":") for it in (r["trace"].split(";") if r["trace"] else []))]
+        seq = sc["tag"].split("|")[0].split("-")
+        # segments per dial
+        segs, cur = [], None
+        for t, rest in items:
+            if rest.startswith("dial:"):
+                cur = []
+                segs.append(cur)
+            if cur is not None:
+                cur.append((t, rest))
+        ctx.case(key=sc["tag"], nontrivial=True, cls=f"ka-reconnect:{'external' if sc['ext'] else 'builtin'}:{len(seq)}")
+        for j, o in enumerate(seq):
+            if o != "Es":
+                continue
+            if j >= len(segs):
+                ctx.violate("detect", "silent-connection-never-given-up@reconnecting-run", sc, f"connection #{j} is dialled",
+                            f"only {len(segs)} dials; trace …{r['trace'][-300:]}", size=appcheck.size_of(sc))
+                break
+            pings = [t for t, rest in segs[j] if rest.startswith("wrote:9:")]
+            noticed = next((t for t, rest in segs[j] if pings and t >= pings[0] and (rest == "pingStop" or rest.startswith("sleep:")
+                                                                                   or "eTIMEOUT" in rest)), None)
+            if not pings:
+                continue
+            if pings[0] + 2 * sc["to"] <= sc["horizon"] and (noticed is None or noticed > pings[0] + 2 * sc["to"] + 8):
+                ctx.violate("detect", ("never-reported" if noticed is None else "reported-late") +
+                            f"@connection-{'first' if j == 0 else 'later'}@{'external' if sc['ext'] else 'builtin'}-dispatcher", sc,
+                            f"connection #{j}: the silence after the ping at {pings[0]} is noticed by {pings[0] + 2 * sc['to']}",
+                            f"pings={pings[:6]} noticed={noticed}; trace …{r['trace'][-240:]}", size=appcheck.size_of(sc))
+                break
+
+
 def run_keepalive(ctx, scs):
     if not scs:
         return
@@ -384,6 +455,8 @@ def run(ctx):
     run_keepalive(ctx, scenarios(ctx))
     run_stall(ctx)
     run_external(ctx)
+    run_external_reconnect(ctx)
+    run_slow_handlers(ctx)
     lifecycle(ctx)
     run_rerun_settings(ctx)
 
@@ -403,6 +476,10 @@ def replay(ctx, data):
         run_args(sub)
     elif sc.get("kind") == "rerun-settings":
         run_rerun_settings(sub)
+    elif sc.get("kind") == "ka-reconnect":
+        run_external_reconnect(sub)
+    elif sc.get("kind") == "ka-slow-handler":
+        run_slow_handlers(sub)
     else:
         lifecycle(sub)
     for v in sub.violations:
